@@ -39,7 +39,7 @@ def check(ctx, tier):
     hazards.h4_take_with_unknown_index(ctx, tk, "C19.a", fs)
     W.report(ctx, tk, "C19.d", fs)
     from .. import hazards as _hz, scopes as _sc
-    _hz.generic(ctx, tk, "C19.z", _sc.scope(tk, "C19", depth=2))
+    _hz.generic(ctx, tk, "C19.z", _sc.scope(tk, "C19", depth=1))
     return {}
 
 
